@@ -10,12 +10,28 @@ range check at every integer construction). This file contains the property theo
   3. per-family specification lemmas pinning the definitions to mathematics;
   4. `range_closed`: every integer the step function leaves on a stack, in a slot or in a
      compound object is within 256 bits.
-Helper lemmas: `Proofs/VmNum.lean`, `Proofs/VmRange.lean`.
+  5. (Proofs/VmDispatch.lean, namespace `NeoModel.Vm.C13`) the dispatch of the specification against the
+     instruction switch of vm.go regenerated with go/ast: every opcode handled exactly once, same set,
+     same comparisons and limit constants;
+  6. (Proofs/VmSpec*.lean, namespace `NeoModel.Vm.Spec`) the specification is the mathematical definition
+     for EVERY operand item: arithmetic with FAULT exactly outside [-2^255, 2^255), shifts, POW, bitwise,
+     MIN/MAX/WITHIN, comparisons, to-boolean, canonical integer encoding and CONVERT round trips, NUMEQUAL
+     vs EQUAL, PACK/UNPACK/PACKMAP inverses, NEWARRAY_T defaults, the ordered-map and list laws of
+     PICKITEM/SETITEM/APPEND/REMOVE/HASKEY/KEYS/VALUES, REVERSEITEMS involution, SUBSTR/LEFT/RIGHT/CAT/MEMCPY,
+     deep copy of Struct and its budget;
+  7. (Proofs/VmRefDiff.lean, Proofs/VmReachWalk.lean) the known finding refcount-cyclic-garbage as a theorem
+     between the specification and the implementation's counter model of C12.
+Helper lemmas: `Proofs/VmNum.lean`, `Proofs/VmEq.lean`.
 -/
 import NeoModel.Model.Vm
 import NeoModel.Generated.Opcodes
 import NeoModel.Proofs.VmNum
 import NeoModel.Proofs.VmEq
+import NeoModel.Proofs.VmDispatch
+import NeoModel.Proofs.VmSpecArithB
+import NeoModel.Proofs.VmSpecConvB
+import NeoModel.Proofs.VmSpecClone
+import NeoModel.Proofs.VmReachWalk
 open NeoModel NeoModel.Vm
 namespace NeoModel.Vm.C13
 
@@ -426,7 +442,18 @@ running counter with per-object reference counts (ref_counter.go), which never r
 object that refers to itself, so unreachable cyclic garbage stays counted. Witness (replayed on the
 real VM by case "limits" of the corpus, oracle key `refcount-cyclic-garbage`): three times
 `PUSHINT16 1000; NEWARRAY; DUP; DUP; APPEND; DROP`, then `PUSH1`. The specification HALTs with `[1]`
-holding one reference; the real VM FAULTs at the third NEWARRAY with "stack is too big: 3003 vs 2048". -/
+holding one reference; the real VM FAULTs at the third NEWARRAY with "stack is too big: 3003 vs 2048".
+
+Stated precisely (`NeoModel.Vm.RefTie.spec_counter_differs_only_with_cyclic_garbage`, Proofs/VmReachWalk.lean,
+over C12's counter model): in every state in which the counter invariant holds for the specification's
+roots, refs = reach + (children held by counted-but-unreachable compounds); the two are equal whenever the
+unreachable part of the heap is acyclic (reachable cycles are harmless), and if they differ an unreachable
+counted compound with a child exists and the unreachable part of the heap contains a cycle. (C12 proves the
+invariant for exactly the roots along every run whose heap stays acyclic; once a cycle has been built the
+real VM may in addition leak references — C12's leaked list — so there the hypothesis holds for roots ++
+leaked.) The harness applies this: a difference between the real counter and `reach` is attributed to the
+known finding only if the specification's heap contains a cycle, garbage included (`cyc=1` of the extended
+driver answer); with an acyclic heap any difference is reported as `refcount-acyclic` / `specdiff`. -/
 
 def cyclicGarbageScript : Array UInt8 :=
   #[0x01, 0xe8, 0x03, 0xc3, 0x4a, 0x4a, 0xcf, 0x45,  0x01, 0xe8, 0x03, 0xc3, 0x4a, 0x4a, 0xcf, 0x45,
